@@ -326,7 +326,10 @@ class Writer:
             results = []
             forced = False
             for idx, it in enumerate(b.items):
-                marker = (str(num) + b.delim) if b.ordered else b.bullet
+                digits = str(num)
+                if b.ordered and b.get('zeros') and len(digits) + b.zeros <= 9 and not self.canonical:
+                    digits = '0' * b.zeros + digits       # '007.' is the number 7
+                marker = (digits + b.delim) if b.ordered else b.bullet
                 if b.ordered:
                     num += 1
                 it.a['marker'] = marker
